@@ -392,6 +392,15 @@ type WithInvalidKinds struct {
 	N    int              `json:"n"`
 }
 
+// big.Int marshals as a JSON number; with the caller's TypeSchemas entry {type: integer} (which must win over the built-in
+// "string" translation, see KF-C04-3) its values validate.
+type WithBigInt struct {
+	I  *big.Int   `json:"i"`
+	L  []*big.Int `json:"l"`
+	V  big.Int    `json:"v"`
+	ID string     `json:"id"`
+}
+
 type WithCustom struct {
 	C  Custom            `json:"c"`
 	Cs []Custom          `json:"cs"`
